@@ -425,7 +425,7 @@ impl<'a, T: Read + Write + Seek> PointCloudWriter<'a, T> {
             Error::invalid("Number of values does not match prototype length")?
         }
 
-        // Go over all values to validate and extract min/max values
+        // Go over all values to validate them
         for (i, p) in self.prototype.iter().enumerate() {
             let value = &values[i];
 
@@ -456,7 +456,11 @@ impl<'a, T: Read + Write + Seek> PointCloudWriter<'a, T> {
                 }
                 _ => {}
             }
+        }
 
+        // Update the bounds only after the whole point was validated,
+        // a rejected point must not leave any traces behind
+        for (i, p) in self.prototype.iter().enumerate() {
             // Update cartesian bounds
             if p.name == RecordName::CartesianX
                 || p.name == RecordName::CartesianY
